@@ -6,7 +6,7 @@ B=${VERIF_BUILD:-/verif/build}
 R=${VERIF_REPO:-/repo}
 mkdir -p $B/llgo
 # hash of compiler-relevant sources in the working tree (content, not mtimes)
-H=$(cd $R && (git ls-files -co --exclude-standard -- cmd cl ssa internal xtool go.mod go.sum runtime targets 2>/dev/null | LC_ALL=C sort | xargs -d '\n' sha256sum 2>/dev/null; cat /verif/tc/src/opaque.go) | sha256sum | cut -c1-16)
+H=$(cd $R && (git ls-files -co --exclude-standard -- cmd cl ssa internal xtool go.mod go.sum runtime targets 2>/dev/null | LC_ALL=C sort | xargs -d '\n' sha256sum 2>/dev/null; cat /verif/tc/src/opaque.go /verif/tc/src/xrewrite.go) | sha256sum | cut -c1-16)
 OUT=$B/llgo/$H/llgo
 if [ ! -x $OUT ]; then
   (
@@ -14,7 +14,7 @@ if [ ! -x $OUT ]; then
     if [ ! -x $OUT ]; then
       mkdir -p $B/llgo/$H
       cat > $B/llgo/$H/ov.json <<EOF
-{"Replace": {"$R/ssa/zz_verif_opaque.go": "/verif/tc/src/opaque.go"}}
+{"Replace": {"$R/ssa/zz_verif_opaque.go": "/verif/tc/src/opaque.go", "$R/cmd/llgo/zz_verif_xrewrite.go": "/verif/tc/src/xrewrite.go"}}
 EOF
       (cd $R && go build -tags llvm14,dev -overlay $B/llgo/$H/ov.json -o $OUT.tmp ./cmd/llgo) >&2
       mv $OUT.tmp $OUT
